@@ -1114,3 +1114,67 @@ func c19r14(rc *core.RC) {
 		rc.Unknown(name+"/written-shapes", fd.Pos(), "found %d values handed to Marshal (confirmed: 3)", n)
 	}
 }
+
+// ---- C19.R15 a marshaler node under a query is always rebuilt with the query ----
+
+// Filter of MarshalJSONCode and MarshalTextCode returns a node that carries the sub-query: the operation made from it
+// hands the query to a MarshalJSON(ctx) method through the context. Whether the method takes a context is known by
+// the node's isMarshalerContext, which the compiler set from the type and from the pointer to it. A Filter that gives
+// back the receiver unchanged for some types (decided on the value's method set only) leaves a pointer-receiver
+// MarshalJSON(ctx) of a member held by value without its sub-query. Obligation: every return of
+// (*MarshalJSONCode).Filter and (*MarshalTextCode).Filter returns a composite literal whose fieldQuery is the
+// parameter, never the receiver itself.
+func c19r15(rc *core.RC) {
+	p := rc.P
+	n := 0
+	for _, name := range []string{"MarshalJSONCode.Filter", "MarshalTextCode.Filter"} {
+		fd := p.Func("encoder", name)
+		if fd == nil || fd.Body == nil {
+			rc.Unknown("encoder."+name+"/carries-the-query", token.NoPos, "method not found")
+			continue
+		}
+		rc.Touch(p.FuncName(fd))
+		info := p.Info(fd)
+		var recv, query types.Object
+		if fd.Recv != nil && len(fd.Recv.List) > 0 && len(fd.Recv.List[0].Names) > 0 {
+			recv = info.Defs[fd.Recv.List[0].Names[0]]
+		}
+		for _, fl := range fd.Type.Params.List {
+			for _, nm := range fl.Names {
+				query = info.Defs[nm]
+			}
+		}
+		k := 0
+		ast.Inspect(fd.Body, func(m ast.Node) bool {
+			r, ok := m.(*ast.ReturnStmt)
+			if !ok || len(r.Results) != 1 {
+				return true
+			}
+			n++
+			k++
+			key := fmt.Sprintf("%s/return#%d carries-the-query", p.FuncName(fd), k)
+			res := core.Unparen(r.Results[0])
+			if core.ObjOf(info, res) == recv && recv != nil {
+				rc.Bad(key, r.Pos(), "Filter gives back the node it was called on, without the sub-query: a MarshalJSON(ctx) method of the member is handed no query and writes all its fields")
+				return true
+			}
+			good := false
+			if u, isU := res.(*ast.UnaryExpr); isU && u.Op == token.AND {
+				if cl, isCL := core.Unparen(u.X).(*ast.CompositeLit); isCL {
+					for _, e := range cl.Elts {
+						if kv, isKV := e.(*ast.KeyValueExpr); isKV {
+							if id, isID := kv.Key.(*ast.Ident); isID && id.Name == "fieldQuery" && core.ObjOf(info, kv.Value) == query {
+								good = true
+							}
+						}
+					}
+				}
+			}
+			rc.Check(good, key, r.Pos(), "the node Filter returns is made anew with fieldQuery set to the query it was called with")
+			return true
+		})
+	}
+	if n < 2 {
+		rc.Unknown("encoder/marshaler-Filter-returns", token.NoPos, "found %d returns in the Filter methods of the marshaler nodes, fewer than the 2 confirmed by hand", n)
+	}
+}
